@@ -27,8 +27,30 @@ GenLine ==
     x |-> [wi \in WorldIx |-> LET a == HandleOnD({"FilePathNoCheck"}, "file_path", Worlds[wi], xp, <<SLASH>> \o rel) IN <<a.st, a.id>>] ]
 GenInv == Len(path) >= GenMin => PrintT(ToJson(GenLine))
 
+\* The deepest layer in one pass: Confinement and ModelConforms (the formulas of ConfinedAndConformsAt) and the vector
+\* line, sharing the lookups.  Used with GENFIRST = k, GENMIN = MaxDepth: one TLC run per first segment.
+DeepInv ==
+  LET rel == Rel(path)
+      fp == TryFindPrepD(Dev, rel)
+      lp == FilePathPrepD(Dev, <<SLASH>> \o rel)
+      ed == ExpectDecodingPrep(rel)
+      el == ExpectLiteralPrep(rel)
+      per == [wi \in WorldIx |-> [loc |-> TryFindOnD(Dev, Worlds[wi], fp),
+                                  xd  |-> ExpectDecodingOn(Worlds[wi], ed),
+                                  xl  |-> ExpectLiteralOn(Worlds[wi], el)]]
+  IN
+  /\ \A wi \in WorldIx : \A tg \in Targets :
+        LET a == AnswerAt(Worlds[wi], tg, rel, per[wi].loc, lp) IN
+        /\ ConfinedAnswer(Worlds[wi], a)
+        /\ Conforms(IF tg[1] = "file_path" THEN per[wi].xl ELSE per[wi].xd, UriFor(tg[1], tg[2], rel), a)
+  /\ Len(path) >= GenMin =>
+        \* p = the catalogue indices (the harness joins the spellings printed in the header line)
+        PrintT(ToJson([ p |-> path,
+                        d |-> [wi \in WorldIx |-> Code(per[wi].xd)],
+                        f |-> [wi \in WorldIx |-> Code(per[wi].xl)] ]))
+
 WorldLine(wi) == [world |-> wi, root |-> Worlds[wi].root, nodes |-> Worlds[wi].nodes]
-GenWorlds == path = <<>> => /\ PrintT(ToJson([routes |-> RouteList, nostar |-> STATIC_NOSTAR]))
+GenWorlds == path = <<>> => /\ PrintT(ToJson([routes |-> RouteList, nostar |-> STATIC_NOSTAR, cat |-> Catalogue]))
                             /\ \A wi \in WorldIx : PrintT(ToJson(WorldLine(wi)))
 
 \* data checks evaluated once at start-up
